@@ -169,12 +169,15 @@ def concat_split(ctx, n_cases):
     for c in range(n_cases):
         k = rng.randint(2, 3)
         parts, cur = [], rng.randint(0, 5)
-        mode = c % 4          # 0: increasing, 1: touching (last == first), 2: overlapping, 3: out of order
+        mode = c % 5          # 0: increasing, 1: touching (last == first), 2: overlapping, 3: out of order,
+        dup_at = rng.randrange(k)   # 4: every junction increasing but one operand repeats a timestamp INSIDE itself
         for j in range(k):
             n = rng.randint(1, 4)
             ts = [cur + i for i in range(n)]
+            if mode == 4 and j == dup_at:
+                ts = sorted(ts + [rng.choice(ts)])
             parts.append(ts)
-            cur = ts[-1] + (1 if mode == 0 else 0 if mode == 1 else -1 if mode == 2 else 1) + (rng.randint(0, 3) if mode == 0 else 0)
+            cur = ts[-1] + (1 if mode in (0, 4) else 0 if mode == 1 else -1 if mode == 2 else 1) + (rng.randint(0, 3) if mode == 0 else 0)
         if mode == 3:
             parts = parts[::-1]
         cls = c % 3
